@@ -84,6 +84,13 @@ let sc_forward (s : sc) (who : int) (toks : string list) : int =
       | ["P"; idx] -> (match List.nth_opt s.hist.(who) (int_of_string idx) with Some f -> put f | None -> ())
       | ["Q"; idx] -> (match List.nth_opt s.hist.(other) (int_of_string idx) with Some f -> put f | None -> ())
       | ["T"; k] -> (match pop () with Some f -> put (take (int_of_string k) f) | None -> ())
+      | ["L"; len] ->
+        (* a correctly sealed frame of the writer whose length field exceeds dataMaxSize *)
+        let c = s.conns.(who) in
+        let frame = le_encode data_len_size (n_of_string len) @ repeat N0 data_max_size in
+        (match incr_nonce c.send_nonce with
+         | Some nc -> put (seal c.send_key c.send_nonce frame); s.conns.(who) <- { c with send_nonce = nc }
+         | None -> ())
       | ["C"] -> ()
       | _ -> failwith ("bad forward token " ^ tok)) toks;
   !added
